@@ -117,6 +117,8 @@ def parse_log(res, trace):
             cur['kill'] += 1
         elif l.startswith('proc_reap'):
             cur['reap'].append(l.split()[-1])
+        elif l.startswith('proc_dropped_unreaped') and 'Running' in l:
+            cur['dropped_running'] = cur.get('dropped_running', 0) + 1
     # merge (event, nop) pairs: outputs logged at the following env poll belong to the event before it
     merged = []
     i = 0
@@ -128,6 +130,7 @@ def parse_log(res, trace):
                 st[k] = st[k] + nx[k]
             for k in ('errs', 'spawn', 'spawn_failed', 'kill'):
                 st[k] += nx[k]
+            st['dropped_running'] = st.get('dropped_running', 0) + nx.get('dropped_running', 0)
             merged.append(st)
             i += 2
         else:
@@ -162,6 +165,7 @@ def concrete_monitor(trace, native):
             if v == 'Ok' and (who, k) in act:
                 act[(who, k)] = bool(st['actual'])
         outs = nat['out']
+        acked_pre = dict(acked)
         oks = [(o[0], o[2]) for o in outs if o[1] == 'Ok' and o[3] == me]
         invs = [o[2] for o in outs if o[1] == 'Invalidated' and o[3] == me]
         wbad = any(not w for w in word.values())
@@ -207,6 +211,10 @@ def concrete_monitor(trace, native):
             emits_okb = any(o[1] == 'Ok' and o[2] == 'Build' and o[3] == me and o[4] for o in outs)
             if res_ok and emits_okb and inval_pending and not inval_now:
                 viol.add('ok_without_cause')
+            # Ok{Build, actual} is only caused by a successful result or by a late requester of a target that is acknowledged
+            late_req = bool(msg and msg[0] == 'Requested' and msg[1] == 'Build' and acked_pre['Build'])
+            if emits_okb and not res_ok and not late_req:
+                viol.add('ok_without_cause')
             if nat['spawn']:
                 inval_pending = False
             elif inval_now:
@@ -229,4 +237,7 @@ def concrete_monitor(trace, native):
                 viol.add('requested_non_dependency')
     if not trace['watch'] and nspawn > 1:
         viol.add('twice')
+    # the actor returned (its Child was dropped) while the process it had spawned was still running
+    if any(n.get('dropped_running') for n in native['steps']):
+        viol.add('proc_left_at_exit')
     return viol
